@@ -29,6 +29,9 @@ func (g *deepcopyGen) GenerateType(c gengo.Context, named *types.Named) error {
 }
 
 func (g *deepcopyGen) generateType(c gengo.Context, named *types.Named, onDemand bool) error {
+	// an instantiation shares the methods of its generic type
+	named = named.Origin()
+
 	if _, ok := g.processed[named]; ok {
 		return nil
 	}
